@@ -62,6 +62,18 @@ def run(ctx):
         for b, lits in oks:
             good = good and any(p and a[1] == "term" and a[2].op == "call" and B.cname(a[2]) == "BlsSignCrypt::verify_share" for a, p in lits)
         ctx.ob("E4.share-verify", f.key + "/ok", good, "Ok(()) only on the true edge of verify_share(..)", where=where(f))
+        # ... and no refusal of its own: every Err exit is the false edge of verify_share, a decoder's failure (the `?` on
+        # as_group_element / from_bytes ..) or the scheme's refusal - a guard on the share's identifier or bytes refuses
+        # shares that satisfy the relation
+        _VERDICTS = ("verify_share", "as_group_element", "as_field_element", "from_bytes", "from_slice", "try_from", "try_into", "from_repr")
+        for b in R.err_blocks(f):
+            lits = G.path_literals(ev, b, P, checks_only=True)
+            by_verdict = any(hasattr(x, "op") and any(t.op == "call" and B.cname(t).split("::")[-1] in _VERDICTS for t in subterms(strip_sites(x))) for a, p in lits for x in a[2:])
+            by_scheme = any(a[1] in ("switch", "switch_not") and hasattr(a[2], "op") and a[2].op == "discr" and any(t.op == "field" and str(t.a[1]) == "scheme" for t in subterms(strip_sites(a[2]))) for a, p in lits)
+            # (a disjunctive guard `if a | b { return Err }` leaves no literal on its true edge: an Err exit behind a branch
+            # with no verdict literal at all is a refusal of the function's own just as well)
+            conditional = any(f.blocks[x]["term"]["k"] == "switch" and len(f.cfg.succ[x]) > 1 and f.cfg.dominates(x, b) for x in f.cfg.reachable if x != b)
+            ctx.ob("E4.share-verify", "%s/err@bb%d" % (f.key, b), by_verdict or by_scheme or not conditional, "an Err exit of share verification is the false edge of verify_share, a decoder's failure or the scheme's refusal (verdict literal=%s, scheme literal=%s): %s" % (by_verdict, by_scheme, "; ".join(G.show_lit(a, p) if hasattr(G, "show_lit") else str(a[1]) for a, p in lits)[:200]), where=where(f, b))
     g = ctx.need_fn("E4.verify_share", "BlsSignCrypt::verify_share")
     if g is not None:
         ev = evaluate(g)
